@@ -273,6 +273,12 @@ func (db *MultiBucketBackend) DeleteBucket(name string) (rerr error) {
 	db.lock.Lock()
 	defer db.lock.Unlock()
 
+	if exists, err := db.bucketExistsLocked(name); err != nil {
+		return err
+	} else if !exists {
+		return gofakes3.BucketNotFound(name)
+	}
+
 	entries, err := afero.ReadDir(db.bucketFs, name)
 	if err != nil {
 		return err
@@ -308,6 +314,12 @@ func (db *MultiBucketBackend) ForceDeleteBucket(name string) error {
 	db.lock.Lock()
 	defer db.lock.Unlock()
 
+	if exists, err := db.bucketExistsLocked(name); err != nil {
+		return err
+	} else if !exists {
+		return gofakes3.BucketNotFound(name)
+	}
+
 	// Delete all objects in the bucket
 	entries, err := afero.ReadDir(db.bucketFs, name)
 	if err != nil {
@@ -337,8 +349,19 @@ func (db *MultiBucketBackend) ForceDeleteBucket(name string) error {
 func (db *MultiBucketBackend) BucketExists(name string) (exists bool, err error) {
 	db.lock.Lock()
 	defer db.lock.Unlock()
-	exists, err = afero.Exists(db.bucketFs, name)
+	exists, err = db.bucketExistsLocked(name)
 	return
+}
+
+// bucketExistsLocked reports whether name is a bucket: an entry of the
+// buckets directory whose name is a bucket name. Anything else (".", "..", a
+// nested path) is never resolved against the file system: "." would alias the
+// buckets directory itself.
+func (db *MultiBucketBackend) bucketExistsLocked(name string) (bool, error) {
+	if gofakes3.ValidateBucketName(name) != nil {
+		return false, nil
+	}
+	return afero.Exists(db.bucketFs, name)
 }
 
 func (db *MultiBucketBackend) HeadObject(bucketName, objectName string) (*gofakes3.Object, error) {
@@ -351,7 +374,7 @@ func (db *MultiBucketBackend) HeadObject(bucketName, objectName string) (*gofake
 	defer db.lock.Unlock()
 
 	// Another slighly racy check:
-	exists, err := afero.Exists(db.bucketFs, bucketName)
+	exists, err := db.bucketExistsLocked(bucketName)
 	if err != nil {
 		return nil, err
 	} else if !exists {
@@ -395,7 +418,7 @@ func (db *MultiBucketBackend) GetObject(bucketName, objectName string, rangeRequ
 	defer db.lock.Unlock()
 
 	// Another slighly racy check:
-	exists, err := afero.Exists(db.bucketFs, bucketName)
+	exists, err := db.bucketExistsLocked(bucketName)
 	if err != nil {
 		return nil, err
 	} else if !exists {
@@ -472,7 +495,7 @@ func (db *MultiBucketBackend) PutObject(
 	defer db.lock.Unlock()
 
 	// Another slighly racy check:
-	exists, err := afero.Exists(db.bucketFs, bucketName)
+	exists, err := db.bucketExistsLocked(bucketName)
 	if err != nil {
 		return result, err
 	} else if !exists {
@@ -530,7 +553,7 @@ func (db *MultiBucketBackend) DeleteObject(bucketName, objectName string) (resul
 	defer db.lock.Unlock()
 
 	// Another slighly racy check:
-	exists, err := afero.Exists(db.bucketFs, bucketName)
+	exists, err := db.bucketExistsLocked(bucketName)
 	if err != nil {
 		return result, err
 	} else if !exists {
@@ -575,7 +598,7 @@ func (db *MultiBucketBackend) DeleteMulti(bucketName string, objects ...string) 
 	defer db.lock.Unlock()
 
 	// Another slighly racy check:
-	exists, err := afero.Exists(db.bucketFs, bucketName)
+	exists, err := db.bucketExistsLocked(bucketName)
 	if err != nil {
 		return result, err
 	} else if !exists {
